@@ -404,7 +404,7 @@ func (s *state) runB(family string, edits []edit, triples []triple) {
 
 // ---------------------------------------------------------------- W cases
 type wop struct {
-	c string // P S D N At De DeA Ba Br BrA Ri Na Nr Ba2 Br2 Sb SbB Ed
+	c string // P S D N At De DeA Bg+ Bg- Ba Br BrA Ri Na Nr Ba2 Br2 Sb SbB Ed
 	v uint32
 	i int
 	e edit
@@ -425,8 +425,10 @@ func (o wop) String() string {
 // ids of the sibling message (same interface) and of the second node: the library refuses an
 // operation that would duplicate them, and the model predicts that
 const (
-	sibID   = 0x0ABCDE77
-	node2ID = 0x3C3C3C3D
+	sibID     = 0x0ABCDE77
+	node2ID   = 0x3C3C3C3D
+	bigID     = 0x0BADBAD1 // message id of the oversized (9-byte) message
+	static2ID = 0x155      // static CAN-ID of the second node's message (when it has one)
 )
 
 func (s *state) runW(mid, nid uint32, npool int, ops []wop) {
@@ -434,7 +436,12 @@ func (s *state) runW(mid, nid uint32, npool int, ops []wop) {
 	for i, o := range ops {
 		os_[i] = o.String()
 	}
-	input := fmt.Sprintf("W;%d:%d:%d:%d;%d;%s", mid, nid, sibID, node2ID, npool, strings.Join(os_, " "))
+	// the second node's message has a static CAN-ID in every second history (from the message id)
+	static2 := int64(-1)
+	if mid%2 == 0 {
+		static2 = static2ID
+	}
+	input := fmt.Sprintf("W;%d:%d:%d:%d:%d:%d;%d;%s", mid, nid, sibID, node2ID, bigID, static2, npool, strings.Join(os_, " "))
 	s.hist["W/history"]++
 	defer func() {
 		if r := recover(); r != nil {
@@ -457,9 +464,18 @@ func (s *state) runW(mid, nid uint32, npool int, ops []wop) {
 	node2 := acmelib.NewNode("node2", acmelib.NodeID(node2ID), 1)
 	iface2 := node2.Interfaces()[0]
 	msg2 := acmelib.NewMessage("msg2", acmelib.MessageID(0x00012345), 8)
+	if static2 >= 0 {
+		if err := msg2.SetStaticCANID(acmelib.CANID(static2)); err != nil {
+			panic("harness: " + err.Error())
+		}
+	}
 	if err := iface2.AddSentMessage(msg2); err != nil {
 		panic("harness: " + err.Error())
 	}
+	// an oversized message: a CAN 2.0A bus refuses an interface that sends it, and an interface on
+	// such a bus refuses the message
+	big := acmelib.NewMessage("big", acmelib.MessageID(bigID), 9)
+	bigAttached := false
 	sibAttached, onBus2 := true, false
 	// a second bus of the same network that can share a builder with the first one
 	busB := acmelib.NewBus("busB")
@@ -520,7 +536,17 @@ func (s *state) runW(mid, nid uint32, npool int, ops []wop) {
 			}
 		case "DeA":
 			iface.RemoveAllSentMessages()
-			attached, sibAttached = false, false
+			attached, sibAttached, bigAttached = false, false, false
+		case "Bg+":
+			err = iface.AddSentMessage(big)
+			if err == nil {
+				bigAttached = true
+			}
+		case "Bg-":
+			err = iface.RemoveSentMessage(big.EntityID())
+			if err == nil {
+				bigAttached = false
+			}
 		case "BrA":
 			bus.RemoveAllNodeInterfaces()
 			onBus, onBus2 = false, false
@@ -630,7 +656,7 @@ func (s *state) runW(mid, nid uint32, npool int, ops []wop) {
 			n        *acmelib.Node
 			att, bus bool
 			onb      *acmelib.Bus
-		}{{"sibling", sib, node, sibAttached, onBus, bus}, {"bystander", msg2, node2, true, onBus2, bus}, {"second-bus", msg4, node3, true, true, busB}} {
+		}{{"sibling", sib, node, sibAttached, onBus, bus}, {"bystander", msg2, node2, true, onBus2, bus}, {"second-bus", msg4, node3, true, true, busB}, {"oversized", big, node, bigAttached, onBus, bus}} {
 			ow, ost := uint32(other.m.ID()), "detached"
 			if other.att {
 				ost = "interface-without-bus"
@@ -638,6 +664,9 @@ func (s *state) runW(mid, nid uint32, npool int, ops []wop) {
 					ost = "on-bus"
 					ow = uint32(other.onb.CANIDBuilder().Calculate(other.m.Priority(), other.m.ID(), other.n.ID()))
 				}
+			}
+			if other.who == "bystander" && static2 >= 0 {
+				ow, ost = uint32(static2), "static"
 			}
 			if og := uint32(other.m.GetCANID()); og != ow {
 				s.fail("getcanid-"+other.who+"-"+ost, fmt.Sprintf("after %s: GetCANID of the %s message (state %s) = %#x, documented %#x; case %s", o, other.who, ost, og, ow, input))
@@ -858,9 +887,18 @@ func main() {
 		generate(s, r, thorough)
 	}
 
-	s.w.Flush()
-	f.Close()
-	sf, _ := os.Create(out + ".summary")
+	// END marker: the driver refuses a case file without it (truncated / wrong file)
+	fmt.Fprintf(s.w, "END %d\n", s.cases)
+	if err := s.w.Flush(); err != nil {
+		panic(err)
+	}
+	if err := f.Close(); err != nil {
+		panic(err)
+	}
+	sf, err := os.Create(out + ".summary")
+	if err != nil {
+		panic(err)
+	}
 	sw := bufio.NewWriter(sf)
 	fmt.Fprintf(sw, "cases %d\nevaluations %d\nnontrivial %d\ndistinct %d\n", s.cases, s.evals, s.nontriv, len(s.distinct))
 	keys := make([]string, 0, len(s.hist))
@@ -877,8 +915,12 @@ func main() {
 	for _, l := range s.samples {
 		fmt.Fprintf(sw, "SAMPLE %s\n", l)
 	}
-	sw.Flush()
-	sf.Close()
+	if err := sw.Flush(); err != nil {
+		panic(err)
+	}
+	if err := sf.Close(); err != nil {
+		panic(err)
+	}
 }
 
 func generate(s *state, r *rng, thorough bool) {
@@ -1028,7 +1070,7 @@ func generate(s *state, r *rng, thorough bool) {
 		npool := 1 + r.below(3)
 		var ops []wop
 		attached, onBus := false, false
-		riUsed, inNet, onBus2 := false, false, false
+		riUsed, inNet, onBus2, big := false, false, false, false
 		lens := make([]int, npool+1)
 		lens[0] = 3
 		n := 4 + r.below(14)
@@ -1066,7 +1108,11 @@ func generate(s *state, r *rng, thorough bool) {
 			case x < 11:
 				// every detach path of a message, then re-attach
 				if attached {
-					ops = append(ops, wop{c: []string{"De", "De", "DeA"}[r.below(3)]})
+					c := []string{"De", "De", "DeA"}[r.below(3)]
+					if c == "DeA" {
+						big = false
+					}
+					ops = append(ops, wop{c: c})
 				} else {
 					ops = append(ops, wop{c: "At"})
 				}
@@ -1090,13 +1136,48 @@ func generate(s *state, r *rng, thorough bool) {
 					ops = append(ops, wop{c: "P", v: uint32(r.below(4))})
 					onBus = !onBus
 				} else {
+					if big {
+						ops = append(ops, wop{c: "Bg-"})
+						big = false
+					}
 					ops = append(ops, wop{c: "Ba"})
 				}
 				onBus = !onBus
 			case x == 14 && r.below(3) == 0:
 				// operations the library must REFUSE in this state (the model predicts it), or whose
 				// acceptance makes a later one collide
-				switch r.below(7) {
+				switch r.below(11) {
+				case 7, 8:
+					// AddNodeInterface refused because the interface carries an oversized message
+					// (and AddSentMessage of that message refused once the interface is on a bus)
+					if !onBus && !riUsed {
+						if !big {
+							ops = append(ops, wop{c: "Bg+"})
+							big = true
+						}
+						ops = append(ops, wop{c: "Ba"})
+						if r.below(2) == 0 {
+							ops = append(ops, wop{c: "Bg-"})
+							big = false
+						}
+					} else {
+						ops = append(ops, wop{c: "Bg+"})
+					}
+				case 9:
+					// the static CAN-ID the second node's message may hold: SetStaticCANID /
+					// AddNodeInterface / AddSentMessage are refused when it is already on the bus
+					ops = append(ops, wop{c: "S", v: static2ID})
+					if !onBus2 {
+						ops = append(ops, wop{c: "Ba2"})
+						onBus2 = true
+					}
+				case 10:
+					if big {
+						ops = append(ops, wop{c: "Bg-"})
+						big = false
+					} else {
+						ops = append(ops, wop{c: "D", v: bigID})
+					}
 				case 0:
 					if attached {
 						ops = append(ops, wop{c: "At"})
@@ -1184,6 +1265,9 @@ func generate(s *state, r *rng, thorough bool) {
 				ops = append(ops, wop{c: "At"})
 			}
 			if !onBus && !riUsed {
+				if big {
+					ops = append(ops, wop{c: "Bg-"})
+				}
 				ops = append(ops, wop{c: "Ba"})
 			}
 		}
